@@ -363,6 +363,37 @@ fn main() {
         let mut im: BTreeMap<i64, u64> = BTreeMap::new(); im.insert(i64::MIN, u64::MAX); im.insert(0, 0); im.insert(7, 1);
         match (sonic_rs::to_string(&im), serde_json::to_string(&im)) { (Ok(a), Ok(b)) if a != b => report("C05", format!("to_string of an integer-keyed map gives {:?}, reference {:?}", a, b)), _ => {} }
     }
+    // C04: typed deserialization against serde_json on the same text: accept/reject and value
+    if want("C04") {
+        use std::collections::BTreeMap;
+        fn cmp<T: serde::de::DeserializeOwned + PartialEq + std::fmt::Debug>(txt: &str, ty: &str, skip_float_text: bool) {
+            let a = catch_unwind(AssertUnwindSafe(|| sonic_rs::from_str::<T>(txt)));
+            let b = serde_json::from_str::<T>(txt);
+            let Ok(a) = a else { report("C04", format!("from_str::<{ty}>({:?}) panics", txt)) };
+            match (&a, &b) {
+                (Ok(x), Ok(y)) if x != y && !skip_float_text => report("C04", format!("from_str::<{ty}>({:?}) = {:?}, serde_json gives {:?}", txt, x, y)),
+                (Ok(x), Err(_)) => report("C04", format!("from_str::<{ty}>({:?}) = {:?}, serde_json rejects", txt, x)),
+                (Err(e), Ok(y)) => report("C04", format!("from_str::<{ty}>({:?}) fails ({}), serde_json gives {:?}", txt, e.to_string().lines().next().unwrap_or(""), y)),
+                _ => {}
+            }
+        }
+        for d in &docs {
+            let Ok(txt) = std::str::from_utf8(d) else { continue };
+            // serde_json accepts lone surrogates in `String` only as an error too, and differs on -0 / big ints: keep to the
+            // structural types
+            cmp::<bool>(txt, "bool", false);
+            cmp::<()>(txt, "()", false);
+            cmp::<Option<bool>>(txt, "Option<bool>", false);
+            cmp::<Vec<bool>>(txt, "Vec<bool>", false);
+            cmp::<Vec<Option<u8>>>(txt, "Vec<Option<u8>>", false);
+            cmp::<BTreeMap<String, bool>>(txt, "BTreeMap<String,bool>", false);
+            cmp::<Vec<Vec<u64>>>(txt, "Vec<Vec<u64>>", false);
+            cmp::<BTreeMap<String, Vec<i64>>>(txt, "BTreeMap<String,Vec<i64>>", false);
+            cmp::<u64>(txt, "u64", false);
+            cmp::<i64>(txt, "i64", false);
+            cmp::<(bool, u8)>(txt, "(bool,u8)", false);
+        }
+    }
     // C07: numbers against std
     if want("C07") {
         for n in &nums {
